@@ -21,3 +21,4 @@ open Emboss.View
 #print axioms C01_array_refines_R_partial
 #print axioms C01_R_array_reported_by_G_partial
 #print axioms C01_constants_partial
+#print axioms C01_moduleWF_iff
